@@ -71,7 +71,8 @@ CutSpecs(ct, items, idxs) ==
           : idx \in idxs }
 
 HsSpecs ==
-  ListSpecs(22, HsItems, 2, {BadLast[j] : j \in 1..Len(BadLast)})
+  ListSpecs(22, HsItems, IF Thorough THEN 3 ELSE 2, {BadLast[j] : j \in 1..Len(BadLast)})
+  \cup (IF Thorough THEN CutSpecs(22, HsItems, {<<a, b>> : a \in 1..8, b \in 1..8}) ELSE {})
   \cup ListSpecs(22, SubSeq(HsItems, 1, 4) \o SubSeq(HsItems, 9, 10), 3, {<<>>})
   \cup CutSpecs(22, HsItems, {<<1, 2>>, <<2, 3, 4>>, <<5>>, <<6, 1>>, <<7, 8>>, <<3, 5>>})
 
